@@ -58,6 +58,12 @@ def gen_extension(r, name=None, small=False):
                    if all(p[0] != "E" or True for p in df["params"])]
             row = tys[:2] if tys else [["bool"]]
             op["body"] = ["func", row, list(reversed(row)), []]
+        if op["body"] is not None and op["body"][3] and r.random() < 0.3:
+            # a requirement named twice (two signatures' lists concatenated): still a set that lacks the owner
+            b = list(op["body"])
+            b[3] = [*b[3], r.choice(b[3])]
+            op["body"] = b
+            op["dup_req"] = True
         e["ops"].append(op)
     vg = VGen(r)
     for i in range(r.randint(0, 1 if small else 3)):
